@@ -36,6 +36,12 @@ func (o *Oracle) check(c *Case, r *RealOut) string {
 	if r.ReparseDiff != "" && (o.prop == "C06" || o.prop == "C12") {
 		return "parsing an empty command line afterwards changed an option: " + r.ReparseDiff
 	}
+	if r.TwiceDiff != "" && (o.prop == "C10" || o.prop == "C11") {
+		return "the same arguments parsed and dispatched a second time on the same object: " + r.TwiceDiff
+	}
+	if (o.prop == "C10" || o.prop == "C11") && c.Twice {
+		o.evals++
+	}
 	switch o.prop {
 	case "C03":
 		// conservation, decided on the implementation alone: whenever Parse succeeds the remaining list
